@@ -28,7 +28,7 @@ var c01OptSets = []string{"list", "set", "mset", "setkeys:id", "setkeys:id,k", "
 // profileFor returns a generator profile that respects the preconditions
 // of the option set (null-free for merge, complete unique keys for setkeys).
 func profileFor(opts string) gen.Profile {
-	p := gen.Profile{VoidRoot: true}
+	p := gen.Profile{VoidRoot: true, Big: 2}
 	if jdx.IsMerge(opts) {
 		p.NullFree = true
 	}
@@ -51,6 +51,9 @@ func genPairCase(t *rapid.T, optSets []string, tweak func(*gen.Profile)) PairCas
 			a, b = gen.DeepPair(t, a, b, p)
 		}
 		return PairCase{A: val.JSON(a), B: val.JSON(b), Opts: opts}
+	}
+	if gen.Chance(t, "floats", 20) {
+		p.Floats = true
 	}
 	if jdx.Reading(opts) == val.List && !jdx.IsMerge(opts) && gen.Chance(t, "listRich", 50) {
 		p.ArrayBias = 70
